@@ -132,6 +132,7 @@ func (s *recSub) EmitScheduler(st cff.SchedulerState) { s.ev("SchedState", st ==
 type esNode struct {
 	leaf     int // >0: leaf id; 0: stack
 	children []*esNode
+	built    cff.Emitter // the Go value built for this node (for sharing between stacks)
 }
 
 func randTree(r *rand.Rand, depth int, nLeaves int) *esNode {
@@ -175,7 +176,20 @@ func (n *esNode) build(leaves map[int]*recLeaf) cff.Emitter {
 	for _, c := range n.children {
 		es = append(es, c.build(leaves))
 	}
-	return cff.EmitterStack(es...)
+	n.built = cff.EmitterStack(es...)
+	return n.built
+}
+
+// stackNodes lists the stack (non-leaf) nodes below and including n.
+func (n *esNode) stackNodes(acc []*esNode) []*esNode {
+	if n.leaf > 0 {
+		return acc
+	}
+	acc = append(acc, n)
+	for _, c := range n.children {
+		acc = c.stackNodes(acc)
+	}
+	return acc
 }
 
 // ------------------------------------------------------------ driving
@@ -294,6 +308,8 @@ func runES(cfg *config, o *out) error {
 		leaves[i] = &recLeaf{id: i}
 	}
 
+	outsider := &recLeaf{id: 5}
+	leaves[5] = outsider
 	for id := 1; id <= n; id++ {
 		tree := randTree(r, 4, nLeaves)
 		if id <= 3 { // make sure the degenerate roots are always present
@@ -304,6 +320,23 @@ func runES(cfg *config, o *out) error {
 			l.reset(d)
 		}
 		root := tree.build(leaves)
+		// Sibling stacks: other stacks derived from the SAME Go values of sub-stacks of this tree,
+		// built after the root. They are never driven; combining must have value semantics, so
+		// they must not change what the root delivers (and the outsider must receive nothing).
+		siblings := 0
+		if id > 3 {
+			for _, sn := range tree.stackNodes(nil) {
+				if sn.built == nil || r.Intn(2) == 0 {
+					continue
+				}
+				_ = cff.EmitterStack(sn.built, outsider)
+				_ = cff.EmitterStack(outsider, sn.built)
+				if r.Intn(2) == 0 {
+					_ = cff.EmitterStack(sn.built, outsider, outsider)
+				}
+				siblings++
+			}
+		}
 		var sent []string
 		panicked := ""
 		func() {
@@ -333,13 +366,13 @@ func runES(cfg *config, o *out) error {
 		}
 		// Sub-emitters that exist beyond the tree's occurrences (would mean
 		// an emitter was initialised more often than it occurs).
-		for lid := 1; lid <= nLeaves; lid++ {
+		for lid := 1; lid <= nLeaves+1; lid++ {
 			for k := occ[lid] + 1; k <= len(leaves[lid].got); k++ {
 				fmt.Fprintf(&sb, " leaf %d#%d got=%s", lid, k, joinOrDash(leaves[lid].got[k-1], ","))
 				ok = false
 			}
 		}
-		fmt.Fprintf(&sb, " args=%d", b2i(d.argsOK))
+		fmt.Fprintf(&sb, " args=%d siblings=%d", b2i(d.argsOK), siblings)
 		o.add("%s", sb.String())
 		if panicked != "" {
 			o.add("X ES %d panic: %s", id, panicked)
